@@ -1,4 +1,4 @@
-\* exhaustive, horizon 12 ticks, literal window formula over the start history of h1: all four (I,B), h2 none or (2,1), shared; (2,1),(3,2) multi
+\* exhaustive, horizon 12 ticks, literal window formula over the start history of h1: all four (I,B) with h2 without settings (shared), (2,1),(3,1) with h2 (2,1) (shared), (2,1),(3,2) with h1 in two queues
 SPECIFICATION Spec
 CONSTANTS
   Hooks = {"h1", "h2"}
